@@ -10,6 +10,7 @@ import (
 	"github.com/jsightapi/jsight-schema-core/notations/jschema"
 	"github.com/jsightapi/jsight-schema-core/notations/regex"
 
+	"github.com/jsightapi/jsight-api-core/catalog"
 	"github.com/jsightapi/jsight-api-core/directive"
 	"github.com/jsightapi/jsight-api-core/jerr"
 	"github.com/jsightapi/jsight-api-core/notation"
@@ -62,6 +63,9 @@ func (core *JApiCore) buildUserTypes() *jerr.JApiError {
 		case notation.SchemaNotationRegex:
 			if !d.BodyCoords.IsSet() {
 				return d.KeywordError(jerr.BodyIsEmpty)
+			}
+			if err := catalog.ProbeRegexExample(d.BodyCoords.Read()); err != nil {
+				return d.BodyError(err.Error())
 			}
 			core.userTypes.Set(k, regex.New(k, d.BodyCoords.Read()))
 		default:
